@@ -1504,6 +1504,12 @@ impl<'a, MutexType, T> FusedFuture for ChannelReceiveFuture<'a, MutexType, T> {'
             }'''}]},
     {'name': 'benign-mutex-notified-arm-handles-locked-gracefully', 'props': ALLP, 'edits': [
         {'file': 'src/sync/mutex.rs', 'old': '                if !self.is_locked {\n                    if self.is_fair {\n                        // In a fair Mutex, the WaitQueueEntry is kept in the\n                        // linked list and must be removed here\n                        // Safety: Due to the state, we know that the node must be part\n                        // of the waiter list\n                        self.force_remove_waiter(wait_node);\n                    }\n                    self.is_locked = true;\n                    wait_node.state = PollState::Done;\n                    Poll::Ready(())\n                } else {\n                    // Fair mutexes should always be able to acquire the lock\n                    // after they had been notified\n                    debug_assert!(!self.is_fair);', 'new': '                if self.is_fair {\n                    self.force_remove_waiter(wait_node);\n                }\n                if !self.is_locked {\n                    self.is_locked = true;\n                    wait_node.state = PollState::Done;\n                    Poll::Ready(())\n                } else {'}]},
+    {'name': 'benign-sem-guard-through-saturating-sub', 'props': ['C01', 'C05', 'C07'], 'edits': [
+        {'file': 'src/sync/semaphore.rs',
+         'old': """                    // if enough permits are available
+                    if self.permits >= wait_node.required_permits {""",
+         'new': """                    // if enough permits are available
+                    if self.permits.saturating_sub(0) >= wait_node.required_permits {"""}]},
     {'name': 'benign-unrelated-additions', 'props': ALLP, 'edits': [
         {'file': 'src/sync/semaphore.rs',
          'old': '''    /// Returns the amount of permits that are available on the semaphore
